@@ -195,10 +195,10 @@ type vf25Case struct {
 	// (all legal; a server that sends NewSessionTicket after the handshake must not disturb the byte stream)
 	CliSess   string
 	NoDynamic bool
-	Seed       uint64
-	Ops        []vf25Op
-	Bufs       []int
-	Fault      vf25Fault
+	Seed      uint64
+	Ops       []vf25Op
+	Bufs      []int
+	Fault     vf25Fault
 	// LateTail > 0 (only without a fault): before its close_notify each side writes a last message of this many bytes
 	// that the peer starts reading only AFTER the close_notify was written too, so that data and alert arrive in the
 	// same transport read (a clean close over TCP)
@@ -827,7 +827,7 @@ func TestVerifC25Sweep(t *testing.T) {
 			for fi, f := range faults {
 				c := &vf25Case{Suite: s, Vers: v, ClientKind: "custom", Tickets: fi%2 == 0, NoDynamic: (si+fi)%2 == 0, Seed: uint64(si*10 + fi),
 					CliSess: []string{"cache+tickets-disabled", "", "cache", "tickets-disabled"}[(si+fi)%4],
-					Ops: script, Bufs: []int{1 << 14, 7, 1<<14 + 1}, Fault: f}
+					Ops:     script, Bufs: []int{1 << 14, 7, 1<<14 + 1}, Fault: f}
 				vf25Judge(st, t, c)
 			}
 		}
